@@ -14,6 +14,10 @@ NA = {
 }
 
 CHECKS = {
+ "C11": dict(engine="K1", category="exploration", design="§4 C11",
+   technique="deterministic simulation: synctest bubble + tape-driven scheduler deciding the relative progress of multipart writer goroutine, caller (GetBody) and transport over scripted upload sources; received bytes parsed and compared part for part",
+   text="One Submit per run in a synctest bubble; the tape draws the payload (every kind, several values/files per field, awkward names, contents around the 512-byte sniffing window, declared type or not), the chunking of every upload source (incl. first read shorter than the window, zero-length reads, data+EOF), how often the auth writer calls GetBody, the map-iteration order of fields and files, and the schedule of source reads vs transport pulls. The bytes the simulated transport received are parsed with mime/multipart / url.ParseQuery or compared with an independent producer call and must equal the supplied payload (multiset of parts: field name, base file name, full content, declared-or-sniffed part type); every GetBody result must equal the bytes sent. Seeded sampling, not proof.",
+   note="Expected sniffed type = http.DetectContentType(first min(512,len) bytes); names without control characters; parts compared as a multiset; the network is a stub RoundTripper."),
  "C12": dict(engine="K1", category="fault_enumeration", design="§4 C12",
    technique="deterministic simulation with fault injection: synctest bubble (fake clock) + tape-driven scheduler over a simulated transport, upload sources and response body; single-fault placement sweep; goroutine/close accounting; tape minimisation + replay",
    text="One Runtime.Submit per run inside a synctest bubble whose every blocking point (upload-source reads, transport steps, response-body reads, closes) is a parked operation released one at a time by the seeded tape, which also moves the fake clock to just before/at/after the deadline and cancels the caller's context at a chosen step. Faults: source read error at any offset, params/auth/URL errors before sending, transport error before/while/after the body, response stall/reset, body reset/truncate/stall at any offset, close errors. Oracles after the run has settled: returned, not later than the effective deadline (exact on the fake clock), error unless complete, files closed, response body closed and drained when reuse is on, no goroutine with a go-openapi/runtime frame left. The thorough tier sweeps every single-fault placement for 9 canonical scenarios × reuse on/off. Sampling of schedules, enumeration of single-fault placements; not a proof.",
